@@ -114,8 +114,9 @@ class World:
                 return False
             if self.fired is None:
                 return True
-            if pid == 0:
-                return self.p0
+            if pid == 0 and not self.p0 and PLAT in ("openbsd", "macos"):
+                # there "PID 0 is listed" MEANS "PID 0 can be queried" (pids() probes it)
+                return False
             return True
         return self.listed(pid)
 
@@ -278,7 +279,7 @@ def _windows_net_if_addrs(a, k):
     import socket
     return [("Ethernet", -1, "aa-bb-cc", None, None, None),
             ("Ethernet", int(socket.AF_INET), "192.168.1.7", "255.255.255.0", None, None),
-            ("Ethernet", int(socket.AF_INET6), "fe80::7", "ffff:ffff:ffff:ffff::", None, None)]
+            ("Ethernet", int(socket.AF_INET6), "fe80::7", None, None, None)]   # arch/windows/net.c: IPv4 netmask only
 
 
 def _pids(a, k):
@@ -404,7 +405,7 @@ class OsProxy:
             names = [str(p) for p in W.listing()] + ["self", "sys"]
         else:
             access("listdir:" + rest, "procfs", pid)
-            names = {"lwp": ["1", "2"], "fd": ["0", "1", "3"]}.get(rest, [])
+            names = {"lwp": ["1", "2"], "fd": ["0", "1", "3", "4"]}.get(rest, [])
         return [os.fsencode(n) for n in names] if isinstance(path, bytes) else names
 
     def readlink(self, path, **kw):
@@ -418,7 +419,7 @@ class OsProxy:
             return "/cwd/" if PLAT == "aix" else "/cwd"
         if rest.startswith("path/"):
             n = rest[5:]
-            if n in ("0", "255"):
+            if n in ("0", "1", "2", "255"):
                 return "/dev/pts/3"
             return FILES[int(n) % 2] if n.isdigit() else "/usr/lib/" + n
         raise FileNotFoundError(_errno.ENOENT, "stub world", path)
@@ -572,8 +573,14 @@ def run_row(psutil, mod, row):
             W.arm(row["site"], row["e"])
         if row.get("oneshot"):
             def fn():
-                with target.oneshot():
+                if row.get("via") == "package":
+                    with target.oneshot():
+                        return call(target, row["m"], table)
+                target.oneshot_enter()      # what psutil.Process.oneshot() does with the platform object
+                try:
                     return call(target, row["m"], table)
+                finally:
+                    target.oneshot_exit()
         else:
             def fn():
                 return call(target, row["m"], table)
@@ -599,12 +606,6 @@ def run_row(psutil, mod, row):
         what = row["what"]
         if what == "net_if_addrs":
             return outcome(psutil.net_if_addrs)
-        if what == "pids":
-            W.reset(5, False, row["p0"])
-            return outcome(psutil.pids)
-        if what == "pid_exists":
-            W.reset(5, False, row["p0"])
-            return outcome(lambda: [psutil.pid_exists(x) for x in (0, OTHER_PID, 5, 4321)])
     raise ValueError("unknown row kind %r" % (k,))
 
 
